@@ -593,9 +593,26 @@ impl NormalizedDurationRecord {
         // This division can be implemented as if constructing Normalized Time Duration Records for the denominator
         // and numerator of total and performing one division operation with a floating-point result.
         // 15. Let roundedUnit be ApplyUnsignedRoundingMode(total, r1, r2, unsignedRoundingMode).
+        // NOTE: `total` is only a double; the rounding direction is decided on the exact rational
+        // r1 + (destEpochNs - startEpochNs) / (endEpochNs - startEpochNs) × increment × sign,
+        // scaled by the (positive) length of the bracket.
+        let numerator = dest_epoch_ns - start_epoch_ns.0;
+        let denominator = end_epoch_ns.0 - start_epoch_ns.0;
+        let span = denominator.abs();
+        let scaled_total = r1 * span
+            + i128::from(options.increment.get())
+                * i128::from(sign.as_sign_multiplier())
+                * numerator
+                * denominator.signum();
+        let scaled_increment = options
+            .increment
+            .as_extended_increment()
+            .checked_mul(NonZeroU128::new(span as u128).temporal_unwrap()?)
+            .temporal_unwrap()?;
         let rounded_unit =
-            IncrementRounder::from_signed_num(total, options.increment.as_extended_increment())?
-                .round(options.rounding_mode);
+            IncrementRounder::<i128>::from_signed_num(scaled_total, scaled_increment)?
+                .round(options.rounding_mode)
+                / span;
 
         // 16. If roundedUnit - total < 0, let roundedSign be -1; else let roundedSign be 1.
         // 19. Return Duration Nudge Result Record { [[Duration]]: resultDuration, [[Total]]: total, [[NudgedEpochNs]]: nudgedEpochNs, [[DidExpandCalendarUnit]]: didExpandCalendarUnit }.
